@@ -33,32 +33,32 @@ func NewDefaultFlushOptions() *FlushOptions                     { return &FlushO
 func NewDefaultTransactionOptions() *TransactionOptions         { return &TransactionOptions{} }
 func NewDefaultTransactionDBOptions() *TransactionDBOptions     { return &TransactionDBOptions{} }
 
-func (o *BlockBasedTableOptions) SetBlockCache(*Cache)       {}
-func (o *Options) EnableStatistics()                         {}
-func (o *Options) IncreaseParallelism(int)                   {}
-func (o *Options) OptimizeForPointLookup(uint64)             {}
-func (o *Options) OptimizeUniversalStyleCompaction(uint64)   {}
-func (o *Options) SetAllowMmapReads(bool)                    {}
+func (o *BlockBasedTableOptions) SetBlockCache(*Cache)               {}
+func (o *Options) EnableStatistics()                                 {}
+func (o *Options) IncreaseParallelism(int)                           {}
+func (o *Options) OptimizeForPointLookup(uint64)                     {}
+func (o *Options) OptimizeUniversalStyleCompaction(uint64)           {}
+func (o *Options) SetAllowMmapReads(bool)                            {}
 func (o *Options) SetBlockBasedTableFactory(*BlockBasedTableOptions) {}
-func (o *Options) SetCompression(CompressionType)            {}
-func (o *Options) SetCreateIfMissing(bool)                   {}
-func (o *Options) SetCreateIfMissingColumnFamilies(bool)     {}
-func (o *Options) SetDbLogDir(string)                        {}
-func (o *Options) SetDeleteObsoleteFilesPeriodMicros(uint64) {}
-func (o *Options) SetKeepLogFileNum(uint)                    {}
-func (o *Options) SetMaxBackgroundJobs(int)                  {}
-func (o *Options) SetMaxWriteBufferNumber(int)               {}
-func (o *Options) SetMergeOperator(m MergeOperator)          { o.merger = m }
-func (o *Options) SetMinWriteBufferNumberToMerge(int)        {}
-func (o *Options) SetPlainTableFactory(uint32, int, float64, uint) {}
-func (o *Options) SetPrefixExtractor(*SliceTransform)        {}
-func (o *Options) SetWriteBufferSize(uint64)                 {}
-func (o *ReadOptions) Destroy()                              {}
-func (o *ReadOptions) SetFillCache(bool)                     {}
-func (o *WriteOptions) SetSync(bool)                         {}
-func (o *WriteOptions) Destroy()                             {}
-func (o *FlushOptions) Destroy()                             {}
-func (o *TransactionOptions) Destroy()                       {}
+func (o *Options) SetCompression(CompressionType)                    {}
+func (o *Options) SetCreateIfMissing(bool)                           {}
+func (o *Options) SetCreateIfMissingColumnFamilies(bool)             {}
+func (o *Options) SetDbLogDir(string)                                {}
+func (o *Options) SetDeleteObsoleteFilesPeriodMicros(uint64)         {}
+func (o *Options) SetKeepLogFileNum(uint)                            {}
+func (o *Options) SetMaxBackgroundJobs(int)                          {}
+func (o *Options) SetMaxWriteBufferNumber(int)                       {}
+func (o *Options) SetMergeOperator(m MergeOperator)                  { o.merger = m }
+func (o *Options) SetMinWriteBufferNumberToMerge(int)                {}
+func (o *Options) SetPlainTableFactory(uint32, int, float64, uint)   {}
+func (o *Options) SetPrefixExtractor(*SliceTransform)                {}
+func (o *Options) SetWriteBufferSize(uint64)                         {}
+func (o *ReadOptions) Destroy()                                      {}
+func (o *ReadOptions) SetFillCache(bool)                             {}
+func (o *WriteOptions) SetSync(bool)                                 {}
+func (o *WriteOptions) Destroy()                                     {}
+func (o *FlushOptions) Destroy()                                     {}
+func (o *TransactionOptions) Destroy()                               {}
 
 // MergeOperator mirrors grocksdb.MergeOperator.
 type MergeOperator interface {
